@@ -78,6 +78,8 @@ def run_batch(job):
                 cols = [r["id"], str(len(left) + len(r["read"]) + len(right)), str(len(left)), str(len(left) + len(r["read"])), "-" if k % 5 == 4 else "+", path,      # realign takes the path as written, whatever the strand column says
                         str(plen), str(r["ps"]), str(r["pe"]), str(nm), str(len(r["ops"])), str((k * 11) % 61)]
                 opt = ["tp:A:P", f"cg:Z:{cg}", "NM:i:2"] if k % 2 else [f"cg:Z:{cg}", "zd:Z:x1"]
+                if k % 5 == 1:      # an optional field may have an EMPTY value (Z)
+                    opt.append("ce:Z:")
                 if k % 4 == 3:      # "all other ... optional fields are unchanged": a free-text comment that ends in a blank, last on the line
                     opt.append("co:Z:lane 7, trimmed ")
                 lines.append("\t".join(cols + opt))
@@ -108,6 +110,8 @@ def run_batch(job):
             for l in lines_of(read_out(out)):
                 olines.setdefault(l.split("\t")[0], []).append(l)
         cases = []
+        # the records come out in input order (one per input record): the sequence of read names is the same
+        in_order = [l.split("\t")[0] for l in lines] == ([l.split("\t")[0] for l in lines_of(read_out(out))] if os.path.exists(out) else [])
         st = res["status"] if res["status"] == "ok" else res["status"] + ":" + res["exc"][:50]
         for r, il in zip(recs, lines):
             fi = il.split("\t")
@@ -121,7 +125,7 @@ def run_batch(job):
                           "iopt": [t for t in fi[12:] if not t.startswith("cg:Z:")], "oopt": [t for t in fo[12:] if not t.startswith("cg:Z:")],
                           "icgpos": ([j + 1 for j, t in enumerate(fi[12:]) if t.startswith("cg:Z:")] or [0])[0],
                           "ocgpos": ([j + 1 for j, t in enumerate(fo[12:]) if t.startswith("cg:Z:")] or [0])[0],
-                          "long": r.get("long", False)})
+                          "long": r.get("long", False), "in_order": in_order})
         return cases
     finally:
         shutil.rmtree(d, ignore_errors=True)
@@ -251,7 +255,7 @@ def run(ctx):
                   {"id": "short", "walk": [[">", "b1"], [">", "b2"]], "ps": 60000, "pe": 60016, "read": big[60000:] + "ACGTAC", "ops": ["="] * 16, "frag": 1}]))
     # more records than one round of worker batches holds (1000 per core): 2,100 short reads with 1 and with 2 cores
     for cores in (1, 2):
-        b = random_batch(rnd, f"M{cores}", 2100, big=False)
+        b = random_batch(rnd, f"M{cores}", 2100 + (cores - 1) * 3, big=False)      # (the leftover batch is not a multiple of the cores)
         jobs.append(b + (cores,))
     # ... and files whose record count is an EXACT multiple of the batch size but not of batch size x cores: full batches are
     # waiting for company when the input ends
